@@ -46,6 +46,8 @@ def plan(tier, seed):
 		for part in range(16):
 			tasks.append(('t_universe', dict(n=n, offset=name, part=part, nparts=16)))
 	tasks.append(('t_nearly_identical', dict(tier=tier)))
+	for dt in ('u2', 'u8', 'i4'):
+		tasks.append(('t_shared_buffer', dict(dtype=dt)))
 	return tasks
 
 
@@ -150,6 +152,35 @@ def t_universe(n, offset, part, nparts):
 	return sh
 
 
+def t_shared_buffer(dtype, only=None):
+	"""Both arguments are views of ONE buffer (rows / strided selections of a table of sorted k-mer indices): every pair of views
+	(start, step, length) with start in 0..2, step in 1..3, length 0..5 - among them pairs that share start, length and type and differ only in
+	stride.  The distance is a function of the two SETS: zero exactly for equal sets, symmetric, equal to the exact value."""
+	import numpy as np
+	from gambit.metric import jaccarddist
+	sh = Shard()
+	table = np.arange(3, 3 + 4 * 40, 4, dtype=dtype)
+	views = [(st, step, ln) for st in range(3) for step in (1, 2, 3) for ln in range(6)]
+	for va in views:
+		for vb in views:
+			if only is not None and [list(va), list(vb)] != only:
+				continue
+			A = table[va[0]: va[0] + va[1] * va[2]: va[1]] if va[2] else table[va[0]:va[0]]
+			B = table[vb[0]: vb[0] + vb[1] * vb[2]: vb[1]] if vb[2] else table[vb[0]:vb[0]]
+			sa, sb = A.tolist(), B.tolist()
+			exp = R.ref_jaccard_f32(sa, sb)
+			sh.evals += 1
+			g = f32bits(jaccarddist(A, B))
+			if g != exp or g != f32bits(jaccarddist(B, A)) or (g == 0) != (set(sa) == set(sb)):
+				sh.violation('shared-buffer-views', dict(view_a=list(va), view_b=list(vb), dtype=dtype, A=sa, B=sb), exp, g)
+				continue
+			if va != vb and va[0] == vb[0] and va[2] == vb[2]:
+				sh.count('same_start_and_length_different_stride')
+			sh.nontrivial += 1
+	sh.sample(dict(family='shared-buffer', dtype=dtype, views=len(views)))
+	return sh
+
+
 def t_nearly_identical(tier):
 	"""Large signatures that differ in one or two k-mers (n = 100 ... 2^20, thorough 2^22): the distance must be > 0, bitwise symmetric, must
 	strictly decrease when a k-mer absent from both is added to both, and must not change with the storage width - where the quotient is
@@ -206,6 +237,8 @@ def replay(case, kind=None):
 
 	def d(X, Y, da, db):
 		return f32bits(jaccarddist(np.array(X, dtype=da), np.array(Y, dtype=db)))
+	if 'view_a' in case:
+		return t_shared_buffer(case['dtype'], only=[case['view_a'], case['view_b']]).violations[:1]
 	if 'n' in case:
 		return [v for v in t_nearly_identical('thorough').violations if v['case'].get('n') == case['n'] and v['case'].get('da') == case['da']][:1]
 	A, B = case['A'], case['B']
